@@ -395,6 +395,22 @@ func runC07(res *hx.Result, rng *hx.Rng, tier string, outdir string) {
 		add(c07job{entry: k8Refl, sig: "(iiii)<S,a,a,a_0,a_1>", t: wg.Struct("S", []string{"a", "a", "a_0", "a_1"}, i4(), i4(), i4(), i4()), input: make([]byte, 16), desc: "directed: member names that collide"})
 		add(c07job{entry: k8Refl, sig: "((ii)<T,b,B>(ii)<T,B,b>)<S,t,T>", t: wg.Struct("S", []string{"t", "T"}, wg.Struct("T", []string{"b", "B"}, i4(), i4()), wg.Struct("T", []string{"B", "b"}, i4(), i4())), input: make([]byte, 16), desc: "directed: member names that collide"})
 	}
+	// directed: several hundred DISTINCT well-formed composite signatures decoded one after the other in one
+	// process (the child runs them in order): whatever a decoder remembers per signature must not overflow
+	for k := 1; k <= 260; k++ {
+		sg := "(" + strings.Repeat("i", k) + ")"
+		var lp [4]byte
+		binary.LittleEndian.PutUint32(lp[:], uint32(len(sg)))
+		data := make([]byte, 4*k)
+		tt := make([]*wg.Ty, k)
+		for i := range tt {
+			tt[i] = wg.Scalar("i")
+		}
+		add(c07job{entry: k8Value, sig: "m", t: wg.Scalar("m"), input: append(append(lp[:], sg...), data...), desc: "directed: many distinct signatures in one process"})
+		if k%2 == 0 {
+			add(c07job{entry: k8SigRead, sig: sg, t: wg.Tuple(tt...), input: data, desc: "directed: many distinct signatures in one process"})
+		}
+	}
 	// resources that grow with the NESTING DEPTH of the input (found in review round 4):
 	// (a) signature.Parse recurses once per nesting level with no bound: the goroutine stack grows by more
 	//     than 500 bytes per level, the runtime's 1 GB limit is reached near 2,000,000 levels (a 2 MB
